@@ -69,7 +69,11 @@ func Decode(b []byte, decFn codec.Decoder) (Token, error) {
 
 // DecodeReader is the same as Decode, but accept an io.Reader.
 func DecodeReader(r io.Reader, decFn codec.Decoder) (Token, error) {
-	node, err := ipld.DecodeStreaming(envelope.NoEmptyReads(r), decFn)
+	rd := envelope.NoEmptyReads(r)
+	node, err := ipld.DecodeStreaming(rd, decFn)
+	if err == nil {
+		err = rd.Err()
+	}
 	if err != nil {
 		return nil, err
 	}
